@@ -60,6 +60,11 @@ func gen(t *rapid.T) Case {
 		l := rapid.OneOf(rapid.SampledFrom(special), rapid.IntRange(0, 64), rapid.IntRange(0, 600), rapid.SampledFrom(big)).Draw(t, "len")
 		c.Lens = append(c.Lens, l/es)
 	}
+	if rapid.IntRange(0, 149).Draw(t, "giant") == 0 {
+		// one element beyond 16 MiB among a few small ones (an element may be as large as the format's length field allows)
+		c.Dims, c.Chunk = []uint64{uint64(rapid.IntRange(1, 3).Draw(t, "giantN"))}, nil
+		c.Lens = append(c.Lens[:1], (16<<20+rapid.SampledFrom([]int{8, 16, 4096, 1 << 20}).Draw(t, "giantExtra"))/es)
+	}
 	return c
 }
 
@@ -105,6 +110,10 @@ func classify(c Case) (bool, []string) {
 	return vol > 4096 || huge || empty, labels
 }
 
+// specialWords: 64-bit patterns; the high half doubles as the 32-bit pattern.
+var specialWords = []uint64{0x8000000000000000, 0, 0x7FF0000000000000, 0xFFF0000000000000, 0x7FF8000000000001, 0x0000000000000001, 0xFFFFFFFFFFFFFFFF,
+	0x7F80000000000000, 0xFF80000000000000, 0x7FC0000100000000, 0x0000000100000000, 0x8000000080000000, 0x8000000000000001}
+
 func mix(seed, i int) uint64 {
 	x := uint64(seed)*0x9E3779B97F4A7C15 + uint64(i)*0xBF58476D1CE4E5B9 + 1
 	x ^= x >> 31
@@ -123,6 +132,20 @@ func values(c Case, salt int) (any, [][]byte) {
 		b := make([]byte, l)
 		for j := range b {
 			b[j] = byte(mix(c.Seed+salt, i*131+j) >> 9) // arbitrary bytes incl. NUL and non-UTF-8 / multi-byte sequences
+		}
+		if es > 1 && l <= 1<<20 {
+			// numeric sequences: every eighth item is one of the values with a representation of its own (signed zero, infinities,
+			// NaNs with payload, smallest/largest magnitudes, all ones)
+			for j := 0; j+es <= l; j += es {
+				if r := mix(c.Seed+salt, i*977+j+13); r%8 == 0 {
+					w := specialWords[(r>>8)%uint64(len(specialWords))]
+					if es == 4 {
+						binary.LittleEndian.PutUint32(b[j:], uint32(w>>32))
+					} else {
+						binary.LittleEndian.PutUint64(b[j:], w)
+					}
+				}
+			}
 		}
 		want[i] = b
 	}
